@@ -123,9 +123,9 @@ impl ValueTryAs for Value {
         F: Fn(Value) -> Result<T>,«
         ensures
             !(self is Array) ==> (r matches Err(e) && e is UnexpectedItem),
-            self matches Value::Array(a) ==> match r {
-                Ok(out) => out@.len() == a@.len() && forall |i: int| 0 <= i < a@.len() ==> call_ensures(f, (#[trigger] a@[i],), Ok::<T, CoseError>(out@[i])),
-                Err(e) => exists |i: int| 0 <= i < a@.len() && call_ensures(f, (#[trigger] a@[i],), Err::<T, CoseError>(e)),
+            self is Array ==> match r {
+                Ok(out) => out@.len() == arr_of(self).len() && forall |i: int| 0 <= i < out@.len() ==> call_ensures(f, (#[trigger] arr_of(self)[i],), Ok::<T, CoseError>(out@[i])),
+                Err(e) => exists |i: int| 0 <= i < arr_of(self).len() && call_ensures(f, (#[trigger] arr_of(self)[i],), Err::<T, CoseError>(e)),
             },»
     {
         self.try_as_array()?
@@ -163,6 +163,7 @@ impl ValueTryAs for Value {
 
 /// Convert each item of an iterator to CBOR, and wrap the lot in
 /// a [`Value::Array`]
+use crate::vprelude::*;
 pub uninterp spec fn iter_enc_ok<C>(c: C, a: Seq<Value>) -> bool;
 pub uninterp spec fn iter_enc_err<C>(c: C, e: CoseError) -> bool;
 pub broadcast axiom fn axiom_iter_enc_err_vec<T: AsCborValue>(v: Vec<T>, e: CoseError)
